@@ -51,7 +51,8 @@ INTS = [0, 1, -1, 2, 3, 7, -3, 43789]
 DECS = [0.5, -2.5, 0.1, 2.675]
 NUMTEXT = ['3', '-3', '3.5']
 BADTEXT = ['abc', '', '\u00b2', '\u2460\u2082',      # incl. digit-like characters that are not decimal digits
-           'inf', 'nan', '-Infinity', '1_000']          # ... and what only a programming language reads as a number
+           'inf', 'nan', '-Infinity', '1_000',          # ... and what only a programming language reads as a number
+           '99999999999999999999 1', '1.2.99999999999']  # ... and what a lenient date reader chokes on
 DATES = [D(2019, 11, 20), D(2000, 2, 29), D(1900, 3, 1)]
 DATETIMES = [D(2019, 11, 20, 6, 0), D(2019, 11, 20, 18, 30, 15)]
 DATETEXT = ['2019-11-20']
@@ -601,6 +602,50 @@ class OneItem(Sub):
         return out
 
 
+class Extremes(Sub):
+    name = 'c06.extremes'
+    rule = ('every ordered pair over {+-1e308, +-1.7976931348623157e308, 1e-320, 5e-324, 1e200, 1e-200, 2, 0.5, 10, 0} x + - * / '
+            '(variables): the exact result rounded to a double where it is one (subnormals and 0 included); where the exact '
+            'result lies beyond the largest double an error value - an infinity or a NaN is not a number; non-trivial = all')
+    min_cases = 10
+    min_nontrivial = 500
+    POOL = [1e308, -1e308, 1.7976931348623157e308, -1.7976931348623157e308, 1e-320, 5e-324, 1e200, 1e-200, 2, 0.5, 10, 0]
+
+    def cases(self, tier, unit):
+        for i in range(len(self.POOL)):
+            yield [i]
+
+    def check(self, env, case):
+        from fractions import Fraction as Fr
+        a = self.POOL[case[0]]
+        out = []
+        MAXD = Fr(1.7976931348623157e308)
+        for b in self.POOL:
+            for op in OPS:
+                env.nt()
+                o = env.evo('xa%sxb' % op, {'xa': a, 'xb': b})
+                if op == '/' and b == 0:
+                    want = 'div0'
+                else:
+                    exact = {'+': Fr(a) + Fr(b), '-': Fr(a) - Fr(b), '*': Fr(a) * Fr(b), '/': (Fr(a) / Fr(b)) if b else None}[op]
+                    want = 'err' if abs(exact) > MAXD * (1 + Fr(1, 2 ** 54)) else exact
+                if want == 'div0':
+                    ok = o == ['e', '#DIV/0!']
+                elif want == 'err':
+                    ok = o[0] == 'e'
+                else:
+                    ok = o[0] == 'v' and isinstance(o[1], (int, float)) and not isinstance(o[1], bool) and (
+                        abs(Fr(o[1]) - want) <= max(abs(want) / 2 ** 52, Fr(5e-324)))
+                if not ok:
+                    out.append(fail('xa%sxb with xa = %r, xb = %r gives %r, expected %s' % (
+                        op, a, b, o, '#DIV/0!' if want == 'div0' else ('an error (the exact result is beyond the largest double)'
+                                                                      if want == 'err' else repr(float(want)))),
+                        None if isinstance(want, str) else float(want), o))
+                    if len(out) >= 4:
+                        return out
+        return out
+
+
 class Nested(Base):
     name = 'c06.nested'
     rule = ('every 2x2 nested array over 3 [quick] / 4 [thorough] element values x {+,-,*,/} against: 9 scalars '
@@ -971,5 +1016,5 @@ class ArrayScale(Sub):
         return out
 
 
-SUBS = [ScalarPairs(), ArrayScalar(), ArrayArray(), Mismatch(), OneItem(), Nested(), LiteralArrays(), Concat(), EarlyDates(),
+SUBS = [ScalarPairs(), ArrayScalar(), ArrayArray(), Mismatch(), OneItem(), Extremes(), Nested(), LiteralArrays(), Concat(), EarlyDates(),
         ExactIntegers(), ArrayReuse(), ArrayScale()]
